@@ -25,6 +25,11 @@ type subject struct {
 	jsUnm   func([]byte) (any, error)
 	size    func(any) int // nil if the API has no sizer
 	payload func(any) any // the payload inside a request wrapper (for the element sizers), nil otherwise
+	// pbMarObj / jsMarObj create ONE marshaler object and return its marshal entry point bound to it, so
+	// that several calls can go through the same object (output-stability oracle). The wrappers have no
+	// marshaler object (the entry point is a method of the value); their factories return pbMar / jsMar.
+	pbMarObj func() func(any) ([]byte, error)
+	jsMarObj func() func(any) ([]byte, error)
 }
 
 type protoCodec interface {
@@ -54,6 +59,12 @@ func wrapper(name, signal, wrap string, fresh func() protoCodec, payload func(an
 			return y, nil
 		},
 		payload: payload,
+		pbMarObj: func() func(any) ([]byte, error) {
+			return func(x any) ([]byte, error) { return x.(protoCodec).MarshalProto() }
+		},
+		jsMarObj: func() func(any) ([]byte, error) {
+			return func(x any) ([]byte, error) { return x.(protoCodec).MarshalJSON() }
+		},
 	}
 }
 
@@ -63,19 +74,43 @@ var subjects = []subject{
 		pbUnm: func(b []byte) (any, error) { return (&plog.ProtoUnmarshaler{}).UnmarshalLogs(b) },
 		jsMar: func(x any) ([]byte, error) { return (&plog.JSONMarshaler{}).MarshalLogs(x.(plog.Logs)) },
 		jsUnm: func(b []byte) (any, error) { return (&plog.JSONUnmarshaler{}).UnmarshalLogs(b) },
-		size:  func(x any) int { return (&plog.ProtoMarshaler{}).LogsSize(x.(plog.Logs)) }},
+		size:  func(x any) int { return (&plog.ProtoMarshaler{}).LogsSize(x.(plog.Logs)) },
+		pbMarObj: func() func(any) ([]byte, error) {
+			m := &plog.ProtoMarshaler{}
+			return func(x any) ([]byte, error) { return m.MarshalLogs(x.(plog.Logs)) }
+		},
+		jsMarObj: func() func(any) ([]byte, error) {
+			m := &plog.JSONMarshaler{}
+			return func(x any) ([]byte, error) { return m.MarshalLogs(x.(plog.Logs)) }
+		}},
 	{name: "traces", signal: "traces", wrap: "payload", fresh: func() any { return ptrace.NewTraces() },
 		pbMar: func(x any) ([]byte, error) { return (&ptrace.ProtoMarshaler{}).MarshalTraces(x.(ptrace.Traces)) },
 		pbUnm: func(b []byte) (any, error) { return (&ptrace.ProtoUnmarshaler{}).UnmarshalTraces(b) },
 		jsMar: func(x any) ([]byte, error) { return (&ptrace.JSONMarshaler{}).MarshalTraces(x.(ptrace.Traces)) },
 		jsUnm: func(b []byte) (any, error) { return (&ptrace.JSONUnmarshaler{}).UnmarshalTraces(b) },
-		size:  func(x any) int { return (&ptrace.ProtoMarshaler{}).TracesSize(x.(ptrace.Traces)) }},
+		size:  func(x any) int { return (&ptrace.ProtoMarshaler{}).TracesSize(x.(ptrace.Traces)) },
+		pbMarObj: func() func(any) ([]byte, error) {
+			m := &ptrace.ProtoMarshaler{}
+			return func(x any) ([]byte, error) { return m.MarshalTraces(x.(ptrace.Traces)) }
+		},
+		jsMarObj: func() func(any) ([]byte, error) {
+			m := &ptrace.JSONMarshaler{}
+			return func(x any) ([]byte, error) { return m.MarshalTraces(x.(ptrace.Traces)) }
+		}},
 	{name: "metrics", signal: "metrics", wrap: "payload", fresh: func() any { return pmetric.NewMetrics() },
 		pbMar: func(x any) ([]byte, error) { return (&pmetric.ProtoMarshaler{}).MarshalMetrics(x.(pmetric.Metrics)) },
 		pbUnm: func(b []byte) (any, error) { return (&pmetric.ProtoUnmarshaler{}).UnmarshalMetrics(b) },
 		jsMar: func(x any) ([]byte, error) { return (&pmetric.JSONMarshaler{}).MarshalMetrics(x.(pmetric.Metrics)) },
 		jsUnm: func(b []byte) (any, error) { return (&pmetric.JSONUnmarshaler{}).UnmarshalMetrics(b) },
-		size:  func(x any) int { return (&pmetric.ProtoMarshaler{}).MetricsSize(x.(pmetric.Metrics)) }},
+		size:  func(x any) int { return (&pmetric.ProtoMarshaler{}).MetricsSize(x.(pmetric.Metrics)) },
+		pbMarObj: func() func(any) ([]byte, error) {
+			m := &pmetric.ProtoMarshaler{}
+			return func(x any) ([]byte, error) { return m.MarshalMetrics(x.(pmetric.Metrics)) }
+		},
+		jsMarObj: func() func(any) ([]byte, error) {
+			m := &pmetric.JSONMarshaler{}
+			return func(x any) ([]byte, error) { return m.MarshalMetrics(x.(pmetric.Metrics)) }
+		}},
 	{name: "profiles", signal: "profiles", wrap: "payload", fresh: func() any { return pprofile.NewProfiles() },
 		pbMar: func(x any) ([]byte, error) {
 			return (&pprofile.ProtoMarshaler{}).MarshalProfiles(x.(pprofile.Profiles))
@@ -83,7 +118,15 @@ var subjects = []subject{
 		pbUnm: func(b []byte) (any, error) { return (&pprofile.ProtoUnmarshaler{}).UnmarshalProfiles(b) },
 		jsMar: func(x any) ([]byte, error) { return (&pprofile.JSONMarshaler{}).MarshalProfiles(x.(pprofile.Profiles)) },
 		jsUnm: func(b []byte) (any, error) { return (&pprofile.JSONUnmarshaler{}).UnmarshalProfiles(b) },
-		size:  func(x any) int { return (&pprofile.ProtoMarshaler{}).ProfilesSize(x.(pprofile.Profiles)) }},
+		size:  func(x any) int { return (&pprofile.ProtoMarshaler{}).ProfilesSize(x.(pprofile.Profiles)) },
+		pbMarObj: func() func(any) ([]byte, error) {
+			m := &pprofile.ProtoMarshaler{}
+			return func(x any) ([]byte, error) { return m.MarshalProfiles(x.(pprofile.Profiles)) }
+		},
+		jsMarObj: func() func(any) ([]byte, error) {
+			m := &pprofile.JSONMarshaler{}
+			return func(x any) ([]byte, error) { return m.MarshalProfiles(x.(pprofile.Profiles)) }
+		}},
 
 	wrapper("logs-request", "logs", "request", func() protoCodec { return plogotlp.NewExportRequest() }, func(x any) any { return x.(plogotlp.ExportRequest).Logs() }),
 	wrapper("traces-request", "traces", "request", func() protoCodec { return ptraceotlp.NewExportRequest() }, func(x any) any { return x.(ptraceotlp.ExportRequest).Traces() }),
